@@ -11,7 +11,8 @@
 // projection from what really happened:
 //   ev     every event [coroutine, step, kind, ready deque as seen at that moment, coroutine mode 0/1]
 //          kind b: step begins  s: the step's awaiter got await_suspend  e: co_await completed
-//               f: body finished (locals destroyed)      coroutine 0 = native driver (b/e around a call)
+//               f: body finished (locals destroyed)      r: the nested start() of the step returned
+//               coroutine 0 = native driver (b/e around a call)
 //   final  deque / coroutine-mode flag after the native driver finished, resumptions and state per
 //          coroutine ("new" never created, "done" finished and frame destroyed exactly once)
 //   errors checks made on the C++ side only (two coroutines running at once, frame destroyed twice,
@@ -65,7 +66,7 @@ struct World {
 
     std::map<void *, int> ids;     // coroutine frame address -> coroutine id
     int created = 0;
-    std::vector<int> running, finished, destroyed, resumes, suspended;
+    std::vector<int> running, finished, destroyed, resumes, suspended, incall;
     J ev = J::list();
     std::size_t nev = 0;
     std::vector<std::string> errors;
@@ -96,14 +97,19 @@ struct World {
         if (c == 0) return;
         char k = kind[0];
         if ((k == 'b' && i == 1) || (k == 'e' && suspended[c])) {
-            // c got control: nobody else may be running (one thread, no nested start in the alphabet)
+            // c got control: everybody else is suspended, finished, or waits inside a nested start()
             for (int x = 1; x <= N; x++) {
-                if (running[x]) err("coroutine " + std::to_string(c) + " got control while " + std::to_string(x) + " is running");
+                if (running[x] && (x == c || !incall[x])) err("coroutine " + std::to_string(c) + " got control while " + std::to_string(x) + " is running");
             }
             if (finished[c]) err("coroutine " + std::to_string(c) + " got control after it finished");
             running[c] = 1;
             suspended[c] = 0;
             resumes[c]++;
+        } else if (k == 'r') {
+            incall[c] = 0;
+            for (int x = 1; x <= N; x++) {
+                if (x != c && running[x] && !incall[x]) err("start() returned to " + std::to_string(c) + " while " + std::to_string(x) + " is running");
+            }
         } else if (k == 's') {
             running[c] = 0;
             suspended[c] = 1;
@@ -111,7 +117,7 @@ struct World {
             running[c] = 0;
             finished[c]++;
         }
-        if ((k == 'b' || k == 'e') && !running[c]) err("coroutine " + std::to_string(c) + " executes while not running");
+        if ((k == 'b' || k == 'e' || k == 'r') && !running[c]) err("coroutine " + std::to_string(c) + " executes while not running");
     }
 
     cocls::async<void> make(int &child) {
@@ -225,6 +231,14 @@ cocls::async<void> body(World &w, int me, Tok tok) {
             cocls::async<void> c = w.make(child);
             { Obs<cocls::async<void>::co_awaiter> o(w, me, i, [&] { return c.operator co_await(); }); co_await o; }
             w.log(me, i, "e");
+        } else if (k == "st") {
+            int child;
+            cocls::async<void> c = w.make(child);
+            w.incall[me] = 1;
+            cocls::future<void> f = c.start();   // coroutine mode: the child is resumed nested, right here
+            w.log(me, i, "r");
+            { Obs<FutAw> o(w, me, i, [&] { return f.operator co_await(); }); co_await o; }
+            w.log(me, i, "e");
         } else if (k == "bd") {
             int child;
             cocls::async<void> c = w.make(child);
@@ -327,7 +341,7 @@ static void run_scenario(const Scenario &sc, Reporter &rep) {
         w->fut[k].reset(new cocls::future<void>());
         w->prom[k] = w->fut[k]->get_promise();
     }
-    for (auto *v : {&w->running, &w->finished, &w->destroyed, &w->resumes, &w->suspended}) v->assign(w->N + 1, 0);
+    for (auto *v : {&w->running, &w->finished, &w->destroyed, &w->resumes, &w->suspended, &w->incall}) v->assign(w->N + 1, 0);
 
     native_driver(*w);
 
